@@ -88,8 +88,10 @@ Qed.
 (* --------------------------------------------------------------- the code since d62d15b *)
 Lemma ds_binds_b_spec d k : ds_binds_b d k = true -> ds_binds d k.
 Proof.
-  unfold ds_binds_b, ds_binds. destruct (r_rd d); try discriminate. intros H.
-  repeat (apply andb_true_iff in H as [H ?]).
+  unfold ds_binds_b, ds_binds. destruct (r_rd d); try discriminate.
+  (* the two support predicates are translated Go switches ([if … then true else false]): keep them folded *)
+  remember (supported_digest dt) as sd eqn:Esd. remember (supported_alg alg) as sa eqn:Esa. intros H.
+  repeat (apply andb_true_iff in H as [H ?]). subst sd sa.
   repeat match goal with
          | H : (_ =? _) = true |- _ => apply N.eqb_eq in H
          | H : name_eqb _ _ = true |- _ => apply name_eqb_eq in H
